@@ -16,7 +16,7 @@ let rec int_of_nat = function O -> 0 | S n -> 1 + int_of_nat n
 
 (* "abc" (ASCII / raw bytes) -> list N *)
 let str_of_string (s : string) : coq_N list =
-  Stdlib.List.init (Stdlib.String.length s) (fun i -> n_of_int (Stdlib.Char.code s.[i]))
+  Stdlib.List.init (Stdlib.String.length s) (fun i -> n_of_int (Stdlib.Char.code (Stdlib.String.get s i)))
 (* list N -> UTF-8 string *)
 let string_of_str (l : coq_N list) : string =
   let b = Stdlib.Buffer.create 16 in
